@@ -541,6 +541,21 @@ fn gen_headers(rng: &mut Rng) -> Vec<(String, String)> {
 }
 
 fn gen_body(rng: &mut Rng) -> Vec<u8> {
+    if rng.chance(1, 8) {
+        // framing: a complete JSON document with something before or after it
+        let doc: &[u8] = br#"{"a":1,"b":"x"}"#;
+        let (pre, post): (&[u8], &[u8]) = match rng.below(8) {
+            0 => (b"", br#"{"a":2,"b":"y"}"#),
+            1 => (b"", b"]"),
+            2 => (b"", b"\n\n  \t"),
+            3 => (b"", b"\0"),
+            4 => (b"", b"<html>proxy error</html>"),
+            5 => (b"  \n", b""),
+            6 => (b"\xef\xbb\xbf", b""),
+            _ => (b"", b"\n{\"a\":3,\"b\":\"z\"}\n"),
+        };
+        return [pre, doc, post].concat();
+    }
     match rng.below(10) {
         0 => vec![],
         1 => b"hello world".to_vec(),
